@@ -502,6 +502,96 @@ theorem lists_are_walkable (ops : List Tromp.Op) (o f : Nat) (m : Mock)
   have := toList_ring hr 0
   simpa using this
 
+/-! ### what the refinement gives at every point of every history -/
+
+/-- in a represented family nothing points to an address that is on no list (and is no list object). -/
+theorem rep_unused_unreferenced {P : Type} [DecidableEq P] {h : Heap P} {a : Abs P} (R : Rep h a) (x : P) (nx : ¬ a.used x)
+    (y : P) (hy : y ≠ x) : h.next y ≠ x ∧ h.prev y ≠ x := by
+  by_cases u : a.used y
+  · obtain ⟨hd, hm, m⟩ := u
+    have ring := R.rings hd hm
+    have hxr : x ∉ hd :: a.lists hd := fun mm => nx ⟨hd, hm, mm⟩
+    exact ⟨fun e => hxr (by have := ring_next_mem ring y m; rwa [e] at this),
+      fun e => hxr (by have := ring_prev_mem ring y m; rwa [e] at this)⟩
+  · have s := R.free y u
+    exact ⟨by rw [s.1]; exact hy, by rw [s.2]; exact hy⟩
+
+/-- an expectation is on none of the World's lists. -/
+def OffAllLists (w : World) (e : Nat) : Prop :=
+  ∀ o m, w.mocks o = some m → ∀ f, f < nFns → e ∉ m.active f ∧ e ∉ m.saturated f
+
+theorem not_used_of_offAllLists {w : World} {e : Nat} (h : OffAllLists w e) : ¬ (ringOf w).used (Addr.exp e) := by
+  rintro ⟨hd, hhd, hy⟩
+  obtain ⟨o, f, m, hm, ha⟩ := mem_headsOf hhd
+  have hf : f < nFns := head_fn_lt hhd ha
+  simp only [List.mem_cons] at hy
+  rcases hy with hy | hy
+  · rcases ha with rfl | rfl <;> cases hy
+  · rcases ha with rfl | rfl
+    · simp only [ringOf, listsOf, hm, List.mem_map] at hy
+      obtain ⟨e', he', hee⟩ := hy
+      cases hee; exact (h o m hm f hf).1 he'
+    · simp only [ringOf, listsOf, hm, List.mem_map] at hy
+      obtain ⟨e', he', hee⟩ := hy
+      cases hee; exact (h o m hm f hf).2 he'
+
+/-- **no dangling pointer, at any point of any history**: if an expectation is on none of the lists of the world a history
+    reaches (it was released, its mock object was destroyed, it was never created, …), then in the heap that history produces
+    no `next` or `prev` member of any other address holds its address, its own members point to itself, and `~list_elem()` on it
+    writes nothing — so destroying it (in whatever order relative to everything else) can leave no pointer to freed memory in
+    any list. -/
+theorem no_dangling_after_history (ops : List Tromp.Op) (e : Nat) (hoff : OffAllLists (World.run {} ops).1 e) :
+    let hp := (heapRun ({}, Heap.init) ops).2
+    (∀ y, y ≠ Addr.exp e → hp.next y ≠ Addr.exp e ∧ hp.prev y ≠ Addr.exp e) ∧
+    hp.next (Addr.exp e) = Addr.exp e ∧ hp.prev (Addr.exp e) = Addr.exp e ∧ unlink (Addr.exp e) hp = hp := by
+  have R := heap_refines_world ops
+  have nu := not_used_of_offAllLists hoff
+  have s := R.free _ nu
+  exact ⟨fun y hy => rep_unused_unreferenced R _ nu y hy, s.1, s.2, unlink_of_selfLinked s⟩
+
+/-- **`is_linked()` is list membership, at any point of any history.** -/
+theorem linked_iff_listed_after_history (ops : List Tromp.Op) (e : Nat) :
+    isLinked (Addr.exp e) (heapRun ({}, Heap.init) ops).2 = true ↔ ¬ OffAllLists (World.run {} ops).1 e := by
+  have R := heap_refines_world ops
+  constructor
+  · intro hl hoff
+    have s := R.free _ (not_used_of_offAllLists hoff)
+    simp [isLinked, s.1] at hl
+  · intro hn
+    apply Decidable.byContradiction
+    intro hnl
+    apply hn
+    intro o m hm f hf
+    have key : ∀ hd ∈ headsOf (World.run {} ops).1, Addr.exp e ∉ (ringOf (World.run {} ops).1).lists hd := by
+      intro hd hhd hin
+      have ring := R.rings hd hhd
+      obtain ⟨l1, l2, eq⟩ := List.append_of_mem hin
+      have p := ring.1; rw [eq] at p
+      have p2 := ((path_append _ hd (Addr.exp e) hd l1 l2).1 p).2
+      have nd := ring.2; rw [eq] at nd
+      have self : (heapRun ({}, Heap.init) ops).2.next (Addr.exp e) = Addr.exp e := by
+        simpa [isLinked] using hnl
+      cases l2 with
+      | nil => simp only [Path] at p2; rw [self] at p2; simp [p2.1] at nd
+      | cons y l2 =>
+        simp only [Path] at p2; rw [self] at p2; rw [← p2.1] at nd
+        simp [List.nodup_append] at nd
+    have hwf := C14.reachable_WF (w := (World.run {} ops).1) ⟨ops, rfl⟩
+    have ho : o < (World.run {} ops).1.nextO := by
+      apply Decidable.byContradiction; intro hge
+      have := hwf.freshMock o (by omega); rw [hm] at this; cases this
+    constructor
+    · intro hin
+      refine key (Addr.act o f) ?_ ?_
+      · unfold headsOf
+        exact List.mem_flatMap.mpr ⟨o, List.mem_range.mpr ho, by rw [hm]; exact (mem_headsOfMock_of hf).1⟩
+      · simp only [ringOf, listsOf, hm]; exact List.mem_map.mpr ⟨e, hin, rfl⟩
+    · intro hin
+      refine key (Addr.sat o f) ?_ ?_
+      · unfold headsOf
+        exact List.mem_flatMap.mpr ⟨o, List.mem_range.mpr ho, by rw [hm]; exact (mem_headsOfMock_of hf).2⟩
+      · simp only [ringOf, listsOf, hm]; exact List.mem_map.mpr ⟨e, hin, rfl⟩
+
 /-! ### a concrete history (the theorems above are not about an empty set of states) -/
 
 private def spec (fn hi : Nat) : ExpectSpec :=
